@@ -6,9 +6,9 @@ package main
 // reference tree keep their identity (rules name them explicitly).
 
 import (
+	"go/token"
 	"go/types"
 	"strings"
-	"go/token"
 
 	"golang.org/x/tools/go/ssa"
 )
@@ -71,7 +71,7 @@ func paramOrigins(par *ssa.Parameter, depth int) []ssa.Value {
 		return nil
 	}
 	fn := par.Parent()
-	if !isNewHelper(fn) {
+	if !isNewHelper(fn) && !isNewParam(par) {
 		return nil
 	}
 	idx := -1
@@ -335,7 +335,6 @@ func sitesV(fn *ssa.Function, match func(ssa.Instruction) bool) []VSite {
 	return out
 }
 
-
 // valueEntails: the boolean value v being equal to t entails one of the fact
 // patterns.  Looks through !x, comparisons and the phi shapes of && and ||
 // (recursively: `A || (B && C)` being false entails !A, and !B or !C).
@@ -532,15 +531,66 @@ func structParamFieldOrigins(fa *ssa.FieldAddr) []ssa.Value {
 		if idx >= len(a) {
 			return nil
 		}
-		f := compositeFields(a[idx])
-		if f == nil {
+		vs := structValueField(a[idx], name, fa.Field, 0)
+		if vs == nil {
 			return nil
 		}
-		v, ok := f[name]
-		if !ok {
-			return nil // zero value at this site: unknown to the matchers
+		out = append(out, vs...)
+	}
+	return out
+}
+
+// structValueField: the value(s) of field `name` of the struct value v: from the literal
+// that built it, or - when v is itself a struct parameter passed on - from the literals
+// at that parameter's call sites.
+func structValueField(v ssa.Value, name string, fieldIdx int, depth int) []ssa.Value {
+	if depth > 3 {
+		return nil
+	}
+	if f := compositeFields(v); f != nil {
+		if x, ok := f[name]; ok {
+			return []ssa.Value{x}
 		}
-		out = append(out, v)
+	}
+	var par *ssa.Parameter
+	switch x := v.(type) {
+	case *ssa.Parameter:
+		par = x
+	case *ssa.UnOp:
+		if a, ok := x.X.(*ssa.Alloc); ok {
+			if st := cellStores(a); len(st) == 1 {
+				par, _ = st[0].(*ssa.Parameter)
+			}
+		}
+	}
+	if par == nil || curProg == nil {
+		return nil
+	}
+	fn := par.Parent()
+	if fn == nil || !curProg.InP(fn) {
+		return nil
+	}
+	idx := -1
+	for i, q := range fn.Params {
+		if q == par {
+			idx = i
+		}
+	}
+	sites := callSitesOf(fn)
+	if idx < 0 || len(sites) == 0 || len(sites) > 4 {
+		return nil
+	}
+	var out []ssa.Value
+	for _, s := range sites {
+		a := s.Common().Args
+		if idx >= len(a) {
+			return nil
+		}
+		vs := structValueField(a[idx], name, fieldIdx, depth+1)
+		if vs == nil {
+			return nil
+		}
+		out = append(out, vs...)
 	}
 	return out
 }
@@ -597,4 +647,42 @@ func resolveThroughCtx(v ssa.Value, ctx []ssa.CallInstruction) ssa.Value {
 		}
 	}
 	return v
+}
+
+// isNewParam: par is a parameter a reference function did not have (a value the
+// function used to read itself is now passed in): its origins are the arguments at
+// the production call sites, like the parameters of an extracted helper.
+func isNewParam(par *ssa.Parameter) bool {
+	fn := par.Parent()
+	if fn == nil || fn.Parent() != nil || curProg == nil || !curProg.InP(fn) {
+		return false
+	}
+	if refParams == nil {
+		refParams = loadAnchorParams()
+	}
+	names, ok := refParams[fnName(fn)]
+	if !ok || len(names) == len(fn.Params) {
+		return false
+	}
+	for _, n := range names {
+		if n == par.Name() {
+			return false
+		}
+	}
+	return len(fn.Params) > len(names)
+}
+
+// typesPkgOf: the package of fn, through generic instantiations (whose Pkg is nil).
+func typesPkgOf(fn *ssa.Function) *types.Package {
+	for i := 0; i < 4 && fn != nil; i++ {
+		if fn.Pkg != nil {
+			return fn.Pkg.Pkg
+		}
+		if o := fn.Origin(); o != nil && o != fn {
+			fn = o
+			continue
+		}
+		break
+	}
+	return nil
 }
